@@ -415,6 +415,129 @@ func samePdataGetter(a, b ssa.Value) bool {
 	return ca.Call.Args[0] == cb.Call.Args[0] || core.StructEq(ca.Call.Args[0], cb.Call.Args[0], 0) || samePdataGetter(ca.Call.Args[0], cb.Call.Args[0])
 }
 
+// boundTestEdge: cmp compares the counter (sameVar) with the maximum of its width; the successor index of an If on cmp
+// that is taken when the variable is at/over the maximum (-1: not such a test).
+func boundTestEdge(cmp *ssa.BinOp, bits int, sameVar func(ssa.Value) bool) int {
+	x, y, op := cmp.X, cmp.Y, cmp.Op
+	if k, isC := core.ConstInt(x); isC && k == maxOf(bits) {
+		x, y = y, x
+		switch op {
+		case token.LSS:
+			op = token.GTR
+		case token.GTR:
+			op = token.LSS
+		case token.LEQ:
+			op = token.GEQ
+		case token.GEQ:
+			op = token.LEQ
+		}
+	}
+	k, isC := core.ConstInt(y)
+	if !isC || !sameVar(x) {
+		return -1
+	}
+	mx := maxOf(bits)
+	switch {
+	case (op == token.EQL || op == token.GEQ) && k == mx, op == token.GTR && (k == mx || k == mx-1):
+		return 0
+	case (op == token.NEQ || op == token.LSS) && k == mx, op == token.LEQ && (k == mx || k == mx-1):
+		return 1
+	}
+	return -1
+}
+
+// predicateImpliesWithin: h returns a bool; does the answer true (resp. false) imply that the counter (sameVar, read
+// inside h) is within the maximum of its width? Decided over the paths of h (loop-free helpers only): on every path
+// that can give the answer, a bound test of the counter is taken on — or the answer is — its "within" side.
+func predicateImpliesWithin(h *ssa.Function, bits int, sameVar func(ssa.Value) bool) (onTrue, onFalse bool) {
+	if h.Signature.Results().Len() != 1 || !isBool(h.Signature.Results().At(0).Type()) {
+		return false, false
+	}
+	for _, b := range h.Blocks {
+		for _, s := range b.Succs {
+			if s.Dominates(b) {
+				return false, false
+			}
+		}
+	}
+	// within(v, want): does "v evaluates to want" assert the within side of a bound test
+	var lit func(v ssa.Value, want bool) bool
+	lit = func(v ssa.Value, want bool) bool {
+		switch x := v.(type) {
+		case *ssa.UnOp:
+			if x.Op == token.NOT {
+				return lit(x.X, !want)
+			}
+		case *ssa.BinOp:
+			if e := boundTestEdge(x, bits, sameVar); e >= 0 {
+				// e == 1: the true edge is the within side
+				return (e == 1) == want
+			}
+		}
+		return false
+	}
+	onTrue, onFalse = true, true
+	anyT, anyF := false, false
+	nPaths := 0
+	var walk func(b *ssa.BasicBlock, from *ssa.BasicBlock, within bool, env map[*ssa.Phi]ssa.Value)
+	walk = func(b *ssa.BasicBlock, from *ssa.BasicBlock, within bool, env map[*ssa.Phi]ssa.Value) {
+		nPaths++
+		if nPaths > 256 {
+			onTrue, onFalse = false, false
+			return
+		}
+		for _, i := range b.Instrs {
+			if ph, ok := i.(*ssa.Phi); ok && from != nil {
+				for k, pr := range b.Preds {
+					if pr == from {
+						e := ph.Edges[k]
+						if p2, ok := e.(*ssa.Phi); ok && env[p2] != nil {
+							e = env[p2]
+						}
+						env[ph] = e
+					}
+				}
+			}
+		}
+		switch last := b.Instrs[len(b.Instrs)-1].(type) {
+		case *ssa.Return:
+			r := last.Results[0]
+			if ph, ok := r.(*ssa.Phi); ok && env[ph] != nil {
+				r = env[ph]
+			}
+			if cst, ok := r.(*ssa.Const); ok {
+				if cst.Value != nil && cst.Value.String() == "true" {
+					anyT = true
+					onTrue = onTrue && within
+				} else {
+					anyF = true
+					onFalse = onFalse && within
+				}
+				return
+			}
+			anyT, anyF = true, true
+			onTrue = onTrue && (within || lit(r, true))
+			onFalse = onFalse && (within || lit(r, false))
+		case *ssa.If:
+			cond := last.Cond
+			if ph, ok := cond.(*ssa.Phi); ok && env[ph] != nil {
+				cond = env[ph]
+			}
+			for k, s := range b.Succs {
+				e2 := map[*ssa.Phi]ssa.Value{}
+				for a, v := range env {
+					e2[a] = v
+				}
+				walk(s, b, within || lit(cond, k == 0), e2)
+			}
+		case *ssa.Jump:
+			walk(b.Succs[0], b, within, env)
+		}
+	}
+	walk(h.Blocks[0], nil, false, map[*ssa.Phi]ssa.Value{})
+	return onTrue && anyT, onFalse && anyF
+}
+
 func maxOf(bits int) int64 {
 	if bits == 16 {
 		return 65535
@@ -464,30 +587,64 @@ func c08_2(c *core.Ctx, p *core.Prog) {
 				if !ok {
 					continue
 				}
-				x, y, op := cmp.X, cmp.Y, cmp.Op
-				if k, isC := core.ConstInt(x); isC && k == maxOf(cs.bits) {
-					x, y = y, x
-					switch op {
-					case token.LSS:
-						op = token.GTR
-					case token.GTR:
-						op = token.LSS
-					case token.LEQ:
-						op = token.GEQ
-					case token.GEQ:
-						op = token.LEQ
+				if e := boundTestEdge(cmp, cs.bits, cs.sameVar); e >= 0 {
+					guards = append(guards, guard{iff, e})
+				}
+			}
+			// the comparison may sit in a predicate helper that is handed the struct holding the counter
+			// (`if !res.isValid() { return err }`): the edge on which the helper's answer does not imply
+			// "within the limit" is the max side
+			if cs.cellAl != nil {
+				for _, b := range fn.Blocks {
+					iff := core.IfOf(b)
+					if iff == nil {
+						continue
 					}
-				}
-				k, isC := core.ConstInt(y)
-				if !isC || !cs.sameVar(x) {
-					continue
-				}
-				mx := maxOf(cs.bits)
-				switch {
-				case (op == token.EQL || op == token.GEQ) && k == mx, op == token.GTR && (k == mx || k == mx-1):
-					guards = append(guards, guard{iff, 0})
-				case (op == token.NEQ || op == token.LSS) && k == mx, op == token.LEQ && (k == mx || k == mx-1):
-					guards = append(guards, guard{iff, 1})
+					cond, neg := iff.Cond, false
+					for {
+						u, ok := cond.(*ssa.UnOp)
+						if !ok || u.Op != token.NOT {
+							break
+						}
+						cond, neg = u.X, !neg
+					}
+					cl, ok := cond.(*ssa.Call)
+					if !ok {
+						continue
+					}
+					h := cl.Call.StaticCallee()
+					if h == nil || len(h.Blocks) == 0 || !core.InRepo(core.FnPkgPath(h)) {
+						continue
+					}
+					for k, a := range cl.Call.Args {
+						if core.Strip(a) != ssa.Value(cs.cellAl) || k >= len(h.Params) {
+							continue
+						}
+						prm := h.Params[k]
+						inHelper := func(v ssa.Value) bool {
+							u, ok := core.StripConv(v).(*ssa.UnOp)
+							if !ok || u.Op != token.MUL {
+								return false
+							}
+							fa, ok := u.X.(*ssa.FieldAddr)
+							return ok && fa.Field == cs.cellField && fa.X == ssa.Value(prm)
+						}
+						tw, fw := predicateImpliesWithin(h, cs.bits, inHelper)
+						switch {
+						case tw && !fw: // true ⇒ within: the false answer is the max side
+							if neg {
+								guards = append(guards, guard{iff, 0})
+							} else {
+								guards = append(guards, guard{iff, 1})
+							}
+						case fw && !tw:
+							if neg {
+								guards = append(guards, guard{iff, 1})
+							} else {
+								guards = append(guards, guard{iff, 0})
+							}
+						}
+					}
 				}
 			}
 			if cs.bits == 32 {
@@ -548,13 +705,11 @@ func c08_2(c *core.Ctx, p *core.Prog) {
 			// (the delta-encoded id columns panic on a value that went down after truncation; handing the value
 			// to an accumulator first is harmless, the batch is refused before anything is built from it)
 			if cs.wide {
-				isGuard := func(i ssa.Instruction) bool {
-					for _, g := range guards {
-						if i == ssa.Instruction(g.iff) {
-							return true
-						}
-					}
-					return false
+				// past the limit every guard takes its max side: the within edges are closed for the query
+				within := map[core.Edge]bool{}
+				for _, g := range guards {
+					gb := g.iff.Block()
+					within[core.Edge{From: gb, To: gb.Succs[1-g.maxEdge]}] = true
 				}
 				core.EachInstr(fn, func(i ssa.Instruction) {
 					ci, ok := i.(ssa.CallInstruction)
@@ -578,7 +733,7 @@ func c08_2(c *core.Ctx, p *core.Prog) {
 					if !uses {
 						return
 					}
-					if unchecked, _ := (core.PathQuery{Fn: fn, From: cs.at(), To: i, Avoid: isGuard}).Exists(); unchecked {
+					if unchecked, _ := (core.PathQuery{Fn: fn, From: cs.at(), To: i, CutEdges: within}).Exists(); unchecked {
 						msgs = append(msgs, fmt.Sprintf("the id is handed to %s at %s before it was compared with 65535: past the limit the truncated id goes down and the delta-encoded id column panics before the guard is reached", f.Name(), p.Pos(i.Pos())))
 					}
 				})
